@@ -269,6 +269,12 @@ class Emitter:
             self.parts.append(s)
             self.line += s.count('\n')
 
+    def glues(self, text):
+        """would `text`, written right now without whitespace, fuse with the previous token into one word?"""
+        last = self.parts[-1][-1:] if self.parts else ''
+        w = lambda c: c.isalnum() or c == '_' or c in '"\''
+        return bool(last) and bool(text) and w(last) and w(text[0])
+
     def text(self):
         return ''.join(self.parts)
 
@@ -410,14 +416,14 @@ def generate_section(section, repo_root, em, res):
         if i not in emitted_pre_a:
             emitted_pre_a.add(i)
             for t, first in pre_a[i]:
-                em.write(t.ws if (t.ws or not first) else ' ')
+                em.write(t.ws if (t.ws or not first or not em.glues(t.text)) else ' ')
                 em.write(t.text)
 
     def emit_real(r, track=True):
         i = r.eidx
         emit_pre_a(i)
         for t, first in pre_b[i]:
-            em.write(t.ws if (t.ws or not first) else ' ')
+            em.write(t.ws if (t.ws or not first or not em.glues(t.text)) else ' ')
             em.write(t.text)
         if track:
             for path, it in starts.get(i, []):
@@ -425,7 +431,7 @@ def generate_section(section, repo_root, em, res):
         if not deleted[i]:
             em.write(r.tok.ws)
             em.write(r.tok.text)
-        elif r.tok.ws:
+        elif r.tok.ws and not pre_b[i]:
             # keep the separation the deleted token provided (`if !x` -> `if x`, not `ifx`)
             em.write(' ' if '\n' not in r.tok.ws else '\n')
         if track:
